@@ -20,6 +20,9 @@ pub enum Stage {
     MoveWait,
     /// Harness block: derive(sync) identity with a counter.
     SyncId,
+    /// Harness block: moves data and reports WaitForFunc from the same call
+    /// (as FftFilterFloat does).
+    MoveWaitFunc,
     /// StreamToPdu + VecToStream pair is not a single stage; see Shape::Packets.
     XorConst(u64),
     MulConst(u64),
@@ -40,7 +43,7 @@ impl Stage {
                 v
             }
             Stage::Resamp(i, d) => crate::specs::resample(input, *i, *d),
-            Stage::MoveWait | Stage::SyncId => input.to_vec(),
+            Stage::MoveWait | Stage::SyncId | Stage::MoveWaitFunc => input.to_vec(),
         }
     }
     fn to_json(&self) -> Value {
@@ -53,12 +56,14 @@ impl Stage {
             Stage::Resamp(i, d) => json!({"Resamp": [i, d]}),
             Stage::MoveWait => json!("MoveWait"),
             Stage::SyncId => json!("SyncId"),
+            Stage::MoveWaitFunc => json!("MoveWaitFunc"),
         }
     }
     fn from_json(v: &Value) -> Self {
         if let Some(s) = v.as_str() {
             return match s {
                 "MoveWait" => Stage::MoveWait,
+                "MoveWaitFunc" => Stage::MoveWaitFunc,
                 _ => Stage::SyncId,
             };
         }
@@ -100,6 +105,8 @@ pub struct GraphSpec {
     /// Order in which blocks are added; a permutation of 0..nblocks in
     /// topological numbering.
     pub order: Vec<usize>,
+    /// 0: VectorSource. n > 0: FileSource repeating the data n times.
+    pub file_repeat: u64,
 }
 
 impl GraphSpec {
@@ -111,7 +118,8 @@ impl GraphSpec {
             Shape::Merge(n) => json!({"merge": n}),
             Shape::Packets(k) => json!({"packets": k}),
         };
-        json!({"shape": shape, "per_page": self.per_page, "pages": self.pages, "src_len": self.src_len, "order": self.order})
+        json!({"shape": shape, "per_page": self.per_page, "pages": self.pages, "src_len": self.src_len, "order": self.order,
+            "file_repeat": self.file_repeat})
     }
     pub fn from_json(v: &Value) -> Self {
         let o = v["shape"].as_object().unwrap();
@@ -132,6 +140,7 @@ impl GraphSpec {
             pages: us("pages"),
             src_len: us("src_len"),
             order: v["order"].as_array().unwrap().iter().map(|x| x.as_u64().unwrap() as usize).collect(),
+            file_repeat: v["file_repeat"].as_u64().unwrap_or(0),
         }
     }
     pub fn nblocks(&self) -> usize {
@@ -167,8 +176,14 @@ impl GraphSpec {
             Shape::Packets(k) => *k > self.per_page * self.pages,
         }
     }
+    /// What the source emits in total.
     pub fn source_data(&self) -> Vec<u64> {
-        (0..self.src_len as u64).map(|i| 10 + i).collect()
+        let once: Vec<u64> = (0..self.src_len as u64).map(|i| 10 + i).collect();
+        if self.file_repeat > 1 {
+            (0..self.file_repeat).flat_map(|_| once.iter().copied()).collect()
+        } else {
+            once
+        }
     }
     /// Expected content of every sink, by pure functions.
     pub fn expected(&self) -> Vec<Vec<u64>> {
@@ -261,6 +276,10 @@ fn stage_block<T: BigT>(s: &Stage, src: ReadStream<T>) -> (Box<dyn Block + Send>
             let (b, o) = SyncId::new(src);
             (Box::new(b), o)
         }
+        Stage::MoveWaitFunc => {
+            let (b, o) = MoveWaitFunc::new(src);
+            (Box::new(b), o)
+        }
     }
 }
 
@@ -269,11 +288,22 @@ const SINK_MAX: usize = 1_000_000;
 /// Build the graph. Stream sizes come from the verification plan's default,
 /// which the caller must have set.
 pub fn build<T: BigT>(g: &GraphSpec) -> Built<T> {
-    let data: Vec<T> = g.source_data().iter().map(|x| T::from(*x)).collect();
     let mut blocks: Vec<Box<dyn Block + Send>> = Vec::new();
     let mut sinks = Vec::new();
-    let (src, mut prev) = VectorSource::new(data);
-    blocks.push(Box::new(src));
+    let mut prev = if g.file_repeat > 0 {
+        let once: Vec<u8> = (0..g.src_len as u64).flat_map(|i| (10 + i).to_le_bytes()).collect();
+        let path = std::env::temp_dir().join(format!("verif-graph-{}-{}.bin", std::process::id(), g.src_len));
+        std::fs::write(&path, once).unwrap();
+        let (mut src, o) = FileSource::<T>::new(&path).unwrap();
+        src.repeat(rustradio::Repeat::finite(g.file_repeat));
+        blocks.push(Box::new(src));
+        o
+    } else {
+        let data: Vec<T> = g.source_data().iter().map(|x| T::from(*x)).collect();
+        let (src, o) = VectorSource::new(data);
+        blocks.push(Box::new(src));
+        o
+    };
     match &g.shape {
         Shape::Chain(st) => {
             for s in st {
@@ -371,6 +401,36 @@ impl<T: Copy> Block for MoveWait<T> {
         } else {
             Ok(BlockRet::WaitForStream(&self.src, 1))
         }
+    }
+}
+
+/// Harness block: copies samples and reports WaitForFunc from the very call in
+/// which it moved data.
+#[derive(rustradio::rustradio_macros::Block)]
+#[rustradio(new)]
+pub struct MoveWaitFunc<T: Copy> {
+    #[rustradio(in)]
+    src: ReadStream<T>,
+    #[rustradio(out)]
+    dst: WriteStream<T>,
+}
+
+impl<T: Copy> Block for MoveWaitFunc<T> {
+    fn work(&mut self) -> Result<BlockRet> {
+        let (i, _tags) = self.src.read_buf()?;
+        let mut o = self.dst.write_buf()?;
+        let n = i.len().min(o.len());
+        if n == 0 {
+            return Ok(if i.is_empty() {
+                BlockRet::WaitForStream(&self.src, 1)
+            } else {
+                BlockRet::WaitForStream(&self.dst, 1)
+            });
+        }
+        o.slice()[..n].copy_from_slice(&i.slice()[..n]);
+        i.consume(n);
+        o.produce(n, &[]);
+        Ok(BlockRet::WaitForFunc(Box::new(|| {})))
     }
 }
 
